@@ -264,3 +264,37 @@ def check_schedule_independence(V, kernel, ints, dbls, floats_at, inouts, thread
                 bad.append((T, sched))
     prepare()
     return ref, out, bad
+
+
+def stray_writes_of(V, call_spec):
+    """Run ONE kernel call (a vt.sani.Call) on the vrt runtime in callers mode, where every instrumented access of the whole call is
+    seen, and count the writes that land outside (a) the argument arrays, (b) heap blocks the kernel allocated itself, (c) the
+    stack: such a write touches memory the kernel was not handed (static or global data).  Returns (n_stray, first_address)."""
+    L = V.L
+    arrays, ints, dbls, floats_at = [], [], [], []
+    for a in call_spec.args:
+        if a[0] == "a":
+            arr = a[1].copy()
+            arrays.append(arr)
+            ints.append(arr)
+        elif a[0] == "i":
+            ints.append(a[1])
+        else:
+            if a[0] == "f":
+                floats_at.append(len(dbls))
+            dbls.append(a[1])
+    if len(ints) > 12 or len(dbls) > 8:
+        return None
+    V.register(*arrays)
+    A = V.kernel_args(call_spec.kernel, ints, dbls, tuple(floats_at))
+    B = V.kernel_args("vrt_noop", [], [])
+    call = V.two_callers(A, B)
+    L.vrt_check_strays(1)
+    L.vrt_stray_writes.restype = ctypes.c_long
+    L.vrt_stray_first.restype = ctypes.c_uint64
+    V.set_filter([])
+    V.run(call, 2, [0, 0, 0, 0])
+    n = L.vrt_stray_writes()
+    first = L.vrt_stray_first()
+    L.vrt_check_strays(0)
+    return int(n), int(first)
